@@ -217,6 +217,11 @@ fn run_soundness(cx: &mut CaseCx, case: &Value) {
           continue;
         }
       };
+      // history on the verifying thread: an honest verification right before and right after the tampered one
+      let honest_ev = ev_of(&h.output, &h.proof).expect("ev");
+      if guard(|| pp::Client::verify(&w.pk, &pt(&h.blinded), &honest_ev, md)) != Ok(true) {
+        cx.viol("C13/complete/honest-rejected-after-tampered", format!("the honest evaluation is rejected after an evaluation with a replaced {} was checked on the same thread", comp), json!({"tag": md, "component": comp, "previous_replacement": how}));
+      }
       match guard(|| pp::Client::verify(&pk, &pt(&inp), &ev, md)) {
         Ok(false) => cx.count("tampering_rejected", 1),
         Ok(true) => cx.viol(format!("C13/sound/{}-substitution-accepted", comp.replace(' ', "-")), format!("Client::verify accepted an evaluation whose {} was replaced ({})", comp, how), json!({"tag": md, "component": comp, "replacement": how, "value": hex(&val)})),
@@ -511,7 +516,7 @@ pub fn spec() -> PropSpec {
       },
       Check {
         name: "soundness-matrix",
-        rule: "per tag: components {pk base point, pk tag point, input point, output point, c, s} x replacements {same component from another server / tag / request, neighbour (+G, +1, negation), identity / zero, a different component of the same evaluation, EVERY single-bit flip of the 32-byte encoding} plus tag-argument and whole-key substitutions: verify must be false in every cell",
+        rule: "per tag: components {pk base point, pk tag point, input point, output point, c, s} x replacements {same component from another server / tag / request, neighbour (+G, +1, negation), identity / zero, a different component of the same evaluation, EVERY single-bit flip of the 32-byte encoding} plus tag-argument and whole-key substitutions: verify must be false in every cell; every tampered verification is preceded (and followed) by an honest one on the same thread, which must stay true",
         gen: |_| TAGS.iter().map(|&t| json!({"md": t})).collect(),
         run: run_soundness,
         min_counts: &[("tampering_rejected", 2000), ("rejected_at_load", 10)],
